@@ -91,6 +91,33 @@ theorem votes_accept_sound {C : Crypto} {cd : CD} {lb : LookBack} {votes : List 
       quorum isPos cd.t ≤ weight S ∧ (∀ x ∈ a, x.2 = cd.payload) :=
   verifyVotes_sound_bls hb h
 
+/-- the secp256k1 configuration (EnableBls = false; reachable code, no shipped version uses it): acceptance ⇒ distinct
+entitled members, each credentialed and each carrying its own signature over exactly this payload, with a quorum. -/
+theorem votes_accept_sound_secp {C : Crypto} {cd : CD} {lb : LookBack} {votes : List Vote} {agg : Option (List SigAtom)}
+    {step : Nat} {isPos : Bool} (hb : cd.enableBls = false)
+    (h : verifyVotes Checks.current C cd lb votes agg step isPos = .ok) :
+    ∃ S, ValidBallotsSecp C lb cd.seed step cd.payload cd.t votes S ∧ quorum isPos cd.t ≤ weight S :=
+  verifyVotes_sound_secp hb h
+
+/-- **Certificate rounds** (header number a positive multiple of ACoCHTFrequency): an accepted header additionally
+carries a quorum (0.585 fraction) of valid certificate ballots of the certificate look-back set, for the seed and the
+committee size recorded on the certificate look-back header (an ancestor that was itself accepted, hence — by
+`declared_sizes_must_be_protocol` — declaring the protocol's size), under the BLS setting of that header's version. -/
+theorem cert_accept_sound {C : Crypto} {versions : Nat → Option Params} {cp : Params} {seedHdr : LbHeader}
+    {lb : LookBack} {certHdr : Option LbHeader} {certLb : LookBack} {h : Header}
+    (hok : verifyMain Checks.current C versions cp seedHdr lb certHdr certLb h = .ok)
+    (hcert : isCertRound h.number = true) :
+    ∃ ch cseed ct yp cu c uc, certHdr = some ch ∧ ch.cons = some (cseed, ct) ∧ versions ch.version = some yp ∧
+      h.cert = some cu ∧ h.cons = some c ∧ h.uc = some uc ∧
+      (yp.enableBls = true → ∃ a S, cu.agg = some a ∧
+        ValidBallots C certLb cseed Gen.stepCertificate ⟨h.hash, c.round, uc.roundIndex⟩ ct cu.votes a S ∧
+        quorum false ct ≤ weight S) := by
+  obtain ⟨ch, cseed, ct, yp, cu, c, uc, h1, h2, h3, h4, h5, h6, hv⟩ := verifyMain_cert hok hcert
+  refine ⟨ch, cseed, ct, yp, cu, c, uc, h1, h2, h3, h4, h5, h6, ?_⟩
+  intro hb
+  obtain ⟨a, S, ha, hball, hq, _⟩ := verifyVotes_sound_bls (cd := { enableBls := yp.enableBls, seed := cseed, payload := ⟨h.hash, c.round, uc.roundIndex⟩, t := ct }) hb hv
+  exact ⟨a, S, ha, hball, hq⟩
+
 /-! ## Votes that contribute nothing -/
 
 /-- **dup_replay_contribute_nothing (duplicates).** A further vote of a member that has already been counted
